@@ -437,6 +437,66 @@ def mpo_window_dense(H, n_sites):
     return arr[np.ix_(m, m)]
 
 
+def bond_dense(hb):
+    """two-site operator (legs p0, p0*, p1, p1*) as a matrix in the Kronecker basis of the two sites"""
+    a = hb.transpose(['p0', 'p1', 'p0*', 'p1*']).to_ndarray()
+    d0, d1 = a.shape[:2]
+    return a.reshape(d0 * d1, d0 * d1)
+
+
+def bonds_window_dense(H_bond, dims, n_sites):
+    """sum of the bond operators lying inside sites 0 … n_sites-1 of an infinite nearest-neighbour model:
+    ``H_bond[j % L]`` acts on sites (j-1, j) (documented convention), j = 1 … n_sites-1"""
+    L = len(H_bond)
+    D = int(np.prod(dims[:n_sites]))
+    out = np.zeros((D, D), dtype=complex)
+    for j in range(1, n_sites):
+        hb = H_bond[j % L]
+        if hb is None:
+            continue
+        dl = int(np.prod(dims[:j - 1]))
+        dr = int(np.prod(dims[j + 1:n_sites]))
+        out += np.kron(np.eye(dl), np.kron(bond_dense(hb), np.eye(dr)))
+    return out
+
+
+def strip_boundary_onsite(Dm, dims):
+    """remove from a window operator the parts X (x) 1 … 1 and 1 … 1 (x) Y acting on the first / last site only and the
+    multiple of the identity.  Two decompositions of one translation invariant nearest-neighbour operator into terms
+    (on-site parts attributed to bonds or not) restricted to a window differ by exactly such terms."""
+    n = Dm.shape[0]
+    d0, dl = int(dims[0]), int(dims[-1])
+    r0, rl = n // d0, n // dl
+    X = np.einsum('aibi->ab', Dm.reshape(d0, r0, d0, r0)) / r0
+    Y = np.einsum('iaib->ab', Dm.reshape(rl, dl, rl, dl)) / rl
+    c = np.trace(Dm) / n
+    return Dm - np.kron(X, np.eye(r0)) - np.kron(np.eye(rl), Y) + c * np.eye(n)
+
+
+def rho_window_dense(psi, n_sites, first=0):
+    """reduced density matrix of sites first … first+n_sites-1 as a matrix in the Kronecker basis"""
+    rho = psi.get_rho_segment(list(range(first, first + n_sites)))
+    ps = ['p%d' % k for k in range(n_sites)]
+    a = rho.transpose(ps + [p + '*' for p in ps]).to_ndarray()
+    D = int(np.prod(a.shape[:n_sites]))
+    return a.reshape(D, D)
+
+
+def random_imps(sites, seed, chi=3, width=None):
+    """random infinite MPS: dense complex tensors for sites without charges, else a random product of basis states"""
+    from tenpy.networks.mps import MPS
+    rs = np.random.RandomState(seed)
+    L = len(sites)
+    if all(s.leg.chinfo.qnumber == 0 for s in sites):
+        Bs = [rs.normal(size=(s.dim, chi, chi)) + 1j * rs.normal(size=(s.dim, chi, chi)) for s in sites]
+        psi = MPS.from_Bflat(sites, Bs, [np.ones(chi) / np.sqrt(chi)] * (L + 1), bc='infinite', form=None,
+                             unit_cell_width=width or L)
+        psi.canonical_form()
+        return psi
+    state = [int(rs.randint(s.dim)) for s in sites]
+    return MPS.from_product_state(sites, state, bc='infinite', permute=False, unit_cell_width=width or L)
+
+
 def kron_perm(perms):
     """permutation of the Kronecker basis induced by per-site permutations:
     index (a_0, a_1, …) ↦ (perm_0[a_0], perm_1[a_1], …)"""
